@@ -114,6 +114,8 @@ pub fn partial_hard_tanh(dim: usize, row: usize, min_val: f64, max_val: f64) -> 
 
 /// Creates an AffTree instance that corresponds to the hard shrink function applied
 /// to the specified ``row``.
+///
+/// Formally, it is defined as (partial_hard_shrink(x))_row = x_row if |x_row| > lambda else 0
 #[allow(non_snake_case)]
 pub fn partial_hard_shrink(dim: usize, row: usize, lambda: f64) -> AffTree<2> {
     assert!(
@@ -123,25 +125,29 @@ pub fn partial_hard_shrink(dim: usize, row: usize, lambda: f64) -> AffTree<2> {
         dim
     );
 
+    // x_{row} <= lambda
     let mut aff = AffFunc::unit(dim, row);
-    aff.mat[[0, row]] = -1.0;
-    aff.bias[0] = -lambda;
+    aff.bias[0] = lambda;
     let mut dd = AffTree::from_aff(aff);
 
+    // -x_{row} <= lambda
     let mut aff = AffFunc::unit(dim, row);
-    aff.mat[[0, row]] = 1.0;
-    aff.bias[0] = -lambda;
+    aff.mat[[0, row]] = -1.0;
+    aff.bias[0] = lambda;
 
+    // x_{row} > lambda
     let affine_max = AffFunc::identity(dim);
 
-    let n = dd.add_child_node(0, 0, aff).unwrap();
-    dd.add_child_node(0, 1, affine_max).unwrap();
+    dd.add_child_node(0, 0, affine_max).unwrap();
+    let n = dd.add_child_node(0, 1, aff).unwrap();
 
-    let affine_zero = AffFunc::zero_idx(dim, row);
+    // x_{row} < -lambda
     let affine_min = AffFunc::identity(dim);
+    // -lambda <= x_{row} <= lambda
+    let affine_zero = AffFunc::zero_idx(dim, row);
 
-    dd.add_child_node(n, 0, affine_zero).unwrap();
-    dd.add_child_node(n, 1, affine_min).unwrap();
+    dd.add_child_node(n, 0, affine_min).unwrap();
+    dd.add_child_node(n, 1, affine_zero).unwrap();
 
     dd
 }
